@@ -44,7 +44,10 @@ def op_fault_decode(a):
             poison("pdu" if kind == "pdu" else kind)
         if kind == "pdu":
             from spacepackets.cfdp.pdu.helper import PduFactory
-            obj, _, _, _ = mk_pdu(a["pk"], a["cfg"], a["p"])
+            # ("whatever fields were set or changed before packing": clean schedules reach the PDU through its setters too)
+            from .ops_cfdp import mk_pdu_via_setters
+            via_setters = a["w"] == 0 and (len(a["cfg"]["src"]) + len(a["cfg"]["seq"]) + a["cfg"]["large"]) % 2 == 1
+            obj, _, _, _ = (mk_pdu_via_setters if via_setters else mk_pdu)(a["pk"], a["cfg"], a["p"])
             raw = bytes(obj.pack())
             dec = lambda b: pdu_class(a["pk"]).unpack(b)
             gen = lambda b: PduFactory.from_raw(b)
